@@ -1,7 +1,6 @@
 #!/bin/bash
 # seed_round.sh <outdir> — queue runner for freshly produced seeded changes: every <outdir>/<id>/ that holds a .ready
-# marker (and patch.diff demo.diff demo_cmd.txt meta.json) is copied into seeded/<id>/, confirmed
-# (tools/confirm_seed.sh --suite) and given to the check of its property (tools/seedtest.sh).  One line per change is
+# marker (and patch.diff demo.diff demo_cmd.txt meta.json) is copied into seeded/<id>/, given to the check of its property (tools/seedtest.sh).  One line per change is
 # appended to seeded/ROUND.tsv.  Strictly sequential (the scratch copies under /work/seed are shared); stops when
 # <outdir>/.stop exists and nothing is left to do.
 cd /verif
@@ -15,11 +14,10 @@ while true; do
     did=1
     mkdir -p seeded/$id; cp $src/patch.diff $src/demo.diff $src/demo_cmd.txt $src/meta.json seeded/$id/ 2>/dev/null
     p=$(python3 -c "import json;print(json.load(open('seeded/$id/meta.json')).get('property','?'))")
-    conf=$(tools/confirm_seed.sh seeded/$id --suite 2>&1 | tr '\n' ';')
     out=$(tools/seedtest.sh seeded/$id/patch.diff $p 2>&1)
     rc=$(echo "$out" | sed -n 's/^== .* rc=\([0-9]*\).*/\1/p' | head -1)
     v=$(echo "$out" | grep -m1 "^VIOLATION" | cut -c1-200)
-    echo -e "$id\t$p\trc=$rc\t$v\t$conf" >> seeded/ROUND.tsv
+    echo -e "$id\t$p\trc=$rc\t$v" >> seeded/ROUND.tsv
   done
   [ $did = 0 ] && [ -f $OUT/.stop ] && break
   [ $did = 0 ] && sleep 20
